@@ -130,6 +130,7 @@ def job_compare(job, maxlen, syms='ab'):
                           d.any_([missing(w) ^ 1, d.any_(missing(v) for v in shorter), d.any_(extra(v) for v in words)])), replay=rp)
     job.oblige('at most one message', E.lit(L.CMP('Gt', n, 1)), replay=rp)
     job.failures_as_obligations(replay=rp)
+    job.sample_replays = 3
     return job.solve()
 
 
@@ -160,6 +161,7 @@ def job_complement(job, n, k):
     job.must_reach('OK is printed for some answer', ok)
     job.must_reach('something other than OK is printed for some answer', said(ev, lambda t: t != 'OK'))
     job.failures_as_obligations(replay=rp)
+    job.sample_replays = 3
     return job.solve()
 
 
@@ -196,6 +198,7 @@ def job_product(job, op, k, length, n1=2, n2=2):
     job.must_reach('OK is printed for some answer', ok)
     job.must_reach('a counterexample word is printed for some answer', said(ev, lambda t: t.startswith("Error: word")))
     job.failures_as_obligations(replay=rp)
+    job.sample_replays = 3
     return job.solve()
 
 
@@ -226,6 +229,7 @@ def job_reverse(job, n, k, length):
     word_feedback_obligations(job, ev, words, ans, ref, rp, 'check_dfa_reverse')
     job.must_reach('OK is printed for some answer', ok)
     job.failures_as_obligations(replay=rp)
+    job.sample_replays = 3
     return job.solve()
 
 
@@ -279,6 +283,7 @@ def job_minimal(job, ref, m, length):
     word_feedback_obligations(job, ev, words, ans, ref_acc, rp, 'check_dfa_minimal')
     job.must_reach('something is printed', said(ev, lambda t: True))
     job.failures_as_obligations(replay=rp)
+    job.sample_replays = 3
     return job.solve()
 
 
@@ -336,6 +341,7 @@ def job_nfa2dfa(job, k, length, eps='_'):
     job.oblige('OK only if the initial state of the answer is the epsilon closure of the initial state', d.and_(ok, init_ok ^ 1), replay=rp)
     job.must_reach('OK is printed for some answer', ok)
     job.failures_as_obligations(replay=rp)
+    job.sample_replays = 3
     return job.solve()
 
 
@@ -367,6 +373,7 @@ def job_from_words(job, n, k, word_list, length, max_states):
     word_feedback_obligations(job, ev, words, ans, ref, rp, 'check_dfa_language_from_words')
     job.must_reach('something is printed', said(ev, lambda t: True))
     job.failures_as_obligations(replay=rp)
+    job.sample_replays = 3
     return job.solve()
 
 
@@ -397,6 +404,7 @@ def job_accepts_rejects(job, n, k, accepted, rejected):
                    d.and_(msgs.get("Error: word '%s' should not be accepted" % shown, FALSE), (va.accepts(w) if w in rej else FALSE) ^ 1), replay=rp)
     job.must_reach('OK is printed for some answer', ok)
     job.failures_as_obligations(replay=rp)
+    job.sample_replays = 3
     return job.solve()
 
 
@@ -432,6 +440,7 @@ def job_dfa2regexp(job, n, k, shape, length):
     word_feedback_obligations(job, ev, words, ans, ref, rp, 'check_dfa2regexp')
     job.must_reach('something is printed', said(ev, lambda t: True))
     job.failures_as_obligations(replay=rp)
+    job.sample_replays = 3
     return job.solve()
 
 
@@ -498,6 +507,7 @@ def job_chomsky_checker(job, family, phase, nsym=4, length=3):
     job.must_reach('OK is printed for some submission', ok)
     job.must_reach('an error is printed for some submission', said(ev, lambda t: t.startswith('Error')))
     job.failures_as_obligations(replay=rp)
+    job.sample_replays = 3
     return job.solve()
 
 
@@ -555,6 +565,7 @@ def job_cyk_checker(job, word):
     job.must_reach('OK is printed for some table', ok)
     job.must_reach('an error is printed for some table', said(ev, lambda t: t.startswith('Error')))
     job.failures_as_obligations(replay=rp)
+    job.sample_replays = 3
     return job.solve()
 
 
@@ -609,6 +620,7 @@ def job_derivation(job, dtype, word='ab'):
     job.must_reach('OK is printed for some derivation', d.any_(oks))
     job.must_reach('OK is not printed for some derivation', d.any_(o ^ 1 for o in oks))
     job.failures_as_obligations(replay=('derivation', {'x': lambda mv: dict(dec(mv), derivation='S => a')}))
+    job.sample_replays = 3
     return job.solve()
 
 
